@@ -137,6 +137,8 @@ def canon(e: ast.expr) -> str:
             elif isinstance(test, ast.BoolOp) and isinstance(test.op, ast.Or):
                 # De Morgan: a disjunctive test is stated as the conjunction of the negations
                 test, body, orelse, flipped = ast.BoolOp(op=ast.And(), values=[_negated(x) for x in test.values]), orelse, body, True
+        if canon(test) == canon(body):
+            return canon(ast.BoolOp(op=ast.Or(), values=[body, orelse]))  # `p if p else d` is `p or d`
         return f"({canon(body)} if {canon(test)} else {canon(orelse)})"
     if isinstance(e, ast.Compare) and len(e.ops) == 1:
         from ..norm import facts
